@@ -263,6 +263,21 @@ Example c01_hypotheses_satisfiable :
   end.
 Proof. vm_compute. repeat split; reflexivity. Qed.
 
+(* ... and the hypotheses of the generated-code theorems: the generator succeeds on it (the nesting of inlined
+   states is within its fuel), every state has distinct character keys, every context automaton passes its side
+   conditions, and the code has the four arms of its four states that are not inlined *)
+Example c01_generated_code_hypotheses_satisfiable :
+  match compile builtin_table MAX_GUARD_SIZE d_example with
+  | Ok c => match gen_program (c_program c) with
+            | Ok gp => chars_nodup_b (c_program c) = true /\
+                       forallb ctx_code_ok_b (p_ctxs (c_program c)) = true /\
+                       (2 <=? length (gp_arms gp)) = true /\ length (gp_ctxs gp) = 1
+            | Panic _ => False
+            end
+  | Panic _ => False
+  end.
+Proof. vm_compute. repeat split; reflexivity. Qed.
+
 Print Assumptions c01_flags_sound.
 Print Assumptions c01_flags_precise.
 Print Assumptions c01_flags_sound_needs_targets_ok.
@@ -286,3 +301,4 @@ Print Assumptions c01_lexer_correct.
 Print Assumptions c01_certificates_sound.
 Print Assumptions c01_lexer_correct_model.
 Print Assumptions c01_hypotheses_satisfiable.
+Print Assumptions c01_generated_code_hypotheses_satisfiable.
